@@ -6,7 +6,7 @@
    equals the field length; match-mapping: value among the mapped values); no-compression always.
    Only statements; proofs in theories/SchcRules.v. *)
 From Coq Require Import ZArith List Bool.
-From MS Require Import PyBase Bits Schc SchcSpec SchcRules.
+From MS Require Import PyBase Buffer Bits BufferAbs Schc SchcSpec SchcRules SchcBytes SchcRefine.
 Import ListNotations.
 Open Scope Z_scope.
 
@@ -21,6 +21,12 @@ Proof. exact (field_match_spec pf rf). Qed.
 Theorem c04_no_compression pd r : rule_nature r = NoCompression -> spec_rule_applies pd r = true.
 Proof. exact (nocompression_always_applies pd r). Qed.
 
+(* composition with the byte-level Buffer model: the operators written with Buffer.__eq__, shift and dict lookup agree with the
+   bit-level ones on canonical buffers of either padding side (same result, same exception) *)
+Theorem c04_field_bytes pf rf : canon (bf_val pf) -> canon_rfd rf ->
+  bfield_match pf rf = field_match (abs_field abs pf) (abs_rfd abs rf).
+Proof. exact (bfield_match_refines pf rf). Qed.
+
 Example c04_ex :
   let f := mkfield (mkfid P_Other 1) [true] 0 in
   let long := mkrfd (mkfid P_Other 1) 0 0 Bi (TVbuf [true;false;false]) MO_msb LSB in
@@ -32,3 +38,4 @@ Print Assumptions c04_match.
 Print Assumptions c04_rule.
 Print Assumptions c04_field.
 Print Assumptions c04_no_compression.
+Print Assumptions c04_field_bytes.
